@@ -675,7 +675,7 @@ Proof.
   unfold f'. destruct (N.ltb_spec (len f) (a + len d)); [|reflexivity]. apply slice_app_l. assumption.
 Qed.
 
-Lemma slice_slice {A} (l : list A) a n o m : o + m <= n -> a + n <= len l -> slice (slice l a n) o m = slice l (a + o) m.
+Lemma slice_slice {A} (l : list A) a n o m : o + m <= n -> slice (slice l a n) o m = slice l (a + o) m.
 Proof.
   intros. unfold slice at 2. rewrite slice_take by lia. unfold slice. rewrite drop_drop. f_equal. f_equal. lia.
 Qed.
@@ -790,12 +790,6 @@ Proof.
 Qed.
 
 (* ------------------------------------------------------------------ the refinement *)
-Definition observables (bs : N) (h : heap) (sp : spec) : Prop :=
-  (forall id d, lookup id (sp_live sp) = Some d -> get h id = Ok d)
-  /\ NoDup (map fst (sp_live sp))
-  /\ ForallOrdPairs (fun a b => disjoint_ids (fst a) (fst b) = true) (sp_live sp)
-  /\ h_nobj h = spec_count sp /\ h_free h = spec_free bs sp.
-
 Lemma entry_id_len objs vol bs e : entry_ok objs vol e -> vol <= cap_new bs -> bs <= 65536 ->
   id_off (fst e) = eoff e /\ id_len (fst e) = elen e.
 Proof.
@@ -1043,17 +1037,6 @@ Proof.
 Qed.
 
 (* ------------------------------------------------------------------ refutations (witnesses by computation) *)
-Definition ramp_nat (b : N) (k : nat) : bytes :=
-  (fix go (b : N) (k : nat) := match k with O => [] | S k' => (b mod 256) :: go (b + 1) k' end) b k.
-Definition obj (b n : N) : bytes := ramp_nat b (N.to_nat n).
-
-Definition outs_of (cap : N -> N) (bs : N) (hist : list op) : list out :=
-  let '(_, _, outs) := run cap bs (new_heap bs, fs0) hist in outs.
-Definition heap_of (cap : N -> N) (bs : N) (hist : list op) : heap :=
-  let '(h, _, _) := run cap bs (new_heap bs, fs0) hist in h.
-Definition file_of (cap : N -> N) (bs : N) (hist : list op) : fstate :=
-  let '(_, fs, _) := run cap bs (new_heap bs, fs0) hist in fs.
-
 (* D12, the pinned capacity rule: 60 bytes are accepted into a 64-byte block; the serialised block holds only
    the first 45 of them, and after store + load the id no longer resolves *)
 Lemma no_byte_lost_refuted_old_rule :
@@ -1143,3 +1126,219 @@ Example demo_readers :
   ro_read (f_bytes fs1) ha (mkid 25 20) = Ok (obj 90 20) /\ core_read (f_bytes fs1) ha (mkid 25 20) = Ok (obj 90 20)
   /\ ro_read (f_bytes fs1) ha (mkid 0 20) = Ok (obj 7 20) /\ core_read (f_bytes fs1) ha (mkid 0 20) = Ok (obj 7 20).
 Proof. vm_compute. repeat split; reflexivity. Qed.
+
+(* ------------------------------------------------------------------ the two read-only readers *)
+Lemma R_set_addrs bs h fs sp a b : R bs h fs sp -> R bs (set_addrs h a b) fs sp.
+Proof. intros []. constructor; assumption. Qed.
+
+Lemma id_fields bs lensz off n :
+  lensz_ok bs lensz -> off < 65536 -> n < bs ->
+  unle (slice (mkid off n) 1 2) = off /\ unle (slice (mkid off n) 3 lensz) = n.
+Proof.
+  intros L Ho Hn. rewrite mkid_unfold. unfold slice, take, drop.
+  change (N.to_nat 1) with 1%nat. change (N.to_nat 2) with 2%nat. change (N.to_nat 3) with 3%nat.
+  cbn [skipn firstn unle]. split. lia.
+  destruct L as [[-> Hb]|[[-> Hb]|[-> Hb]]].
+  - change (N.to_nat 1) with 1%nat. cbn [firstn unle]. lia.
+  - change (N.to_nat 2) with 2%nat. cbn [firstn unle]. lia.
+  - change (N.to_nat 3) with 3%nat. cbn [firstn unle]. lia.
+Qed.
+
+Section Stored.
+  Variables (bs : N) (h : heap) (fs : fstate) (sp : spec) (f : bytes).
+  Hypothesis Hbs : bs_ok bs = true.
+  Hypothesis HR : R bs h fs sp.
+  Let h1 := set_addrs h 2048 2194.
+  Let H := encode_header h1.
+  Let B := encode_dblock (h_blk h1).
+  Let f2 := write_at (write_at f 2048 H) 2194 B.
+
+  Lemma stored_lenB : len B = bs.
+  Proof.
+    pose proof (bs_ok_bounds bs Hbs) as [[Hb1 Hb2] Hcap]. destruct HR.
+    unfold B. rewrite len_encode_dblock; unfold h1; cbn [set_addrs h_blk db_size db_objs]; lia.
+  Qed.
+  Lemma stored_len : 2194 + bs <= len f2.
+  Proof. unfold f2. rewrite len_write_at, stored_lenB. lia. Qed.
+  Lemma stored_block : slice f2 2194 bs = B.
+  Proof. unfold f2. rewrite <- stored_lenB. apply slice_write_at_same. Qed.
+  Lemma stored_header : slice f2 2048 146 = H.
+  Proof.
+    unfold f2. rewrite slice_write_at_before; [|lia|rewrite len_write_at; change (len H) with 146; lia].
+    change 146 with (len H). apply slice_write_at_same.
+  Qed.
+  Lemma stored_header_part o m : o + m <= 142 -> slice f2 (2048 + o) m = slice (header_body h1) o m.
+  Proof.
+    intros. rewrite <- (slice_slice f2 2048 146) by lia. rewrite stored_header.
+    unfold H, encode_header. apply slice_app_l. change (len (header_body h1)) with 142. assumption.
+  Qed.
+
+  Variables (id d : bytes).
+  Hypothesis Hl : lookup id (sp_live sp) = Some d.
+
+  Lemma stored_object : slice f2 (2194 + 15 + id_off id) (len d) = d.
+  Proof.
+    pose proof (bs_ok_bounds bs Hbs) as [[Hb1 Hb2] Hcap].
+    destruct (R_entry _ _ _ _ _ _ Hbs HR Hl) as ((A & B0 & C & D) & Ho & Hn & Hp).
+    unfold eoff, elen in *. cbn [fst snd] in *.
+    replace (2194 + 15 + id_off id) with (2194 + (15 + id_off id)) by lia.
+    rewrite <- (slice_slice f2 2194 bs) by (destruct HR; lia). rewrite stored_block.
+    apply (block_bytes bs h1 fs sp id d Hbs (R_set_addrs _ _ _ _ _ _ HR) Hl).
+  Qed.
+
+  Lemma ro_read_stored : ro_read f2 2048 id = Ok d.
+  Proof.
+    pose proof (bs_ok_bounds bs Hbs) as [[Hb1 Hb2] Hcap].
+    destruct (R_entry _ _ _ _ _ _ Hbs HR Hl) as ((A & B0 & C & D) & Ho & Hn & Hp).
+    unfold eoff, elen in *. cbn [fst snd] in *.
+    pose proof stored_len as Hlen. pose proof HR as HR'. destruct HR'.
+    remember (id_off id) as off eqn:Eoff. rewrite A.
+    unfold ro_read. change ((2048 =? 0) || (2048 =? ALL_ONES)) with false. cbv iota.
+    unfold read_at, HDR_BODY. destruct (N.leb_spec (2048 + 142) (len f2)); [|lia].
+    replace (slice f2 2048 142) with (header_body h1).
+    2:{ pose proof (stored_header_part 0 142). rewrite N.add_0_r in H1. rewrite H1 by lia.
+        change 142 with (len (header_body h1)). symmetry. apply slice_full. }
+    rewrite parse_header_body.
+    cbn [r_rows r_root r_start r_flags r_maxheap r_maxdb r_maxobj].
+    rewrite mkid_unfold.
+    change (N.shiftr (N.land 0 192) 6 =? 0) with true. cbn [negb]. change (N.land 0 48) with 0.
+    change (0 =? 0) with true. cbv iota.
+    change (wrap8 (wrap16 (16 + 7) / 8)) with 2.
+    assert (Hmd : h_maxdb h1 = bs) by assumption. assert (Hst : h_start h1 = bs) by assumption.
+    assert (Hrw : h_rows h1 = 0) by assumption. assert (Hrt : h_root h1 = 2194) by reflexivity.
+    rewrite Hmd, Hst, Hrw, Hrt. rewrite !(m64_small bs) by lia. change (m64 2194) with 2194.
+    pose proof (lensz_of_ok bs ltac:(lia)) as Lz. change MAX_OBJ with 65536 in Lz.
+    set (lz := lensz_of bs 65536) in *.
+    rewrite <- mkid_unfold. rewrite len_mkid.
+    destruct (N.ltb_spec 8 (1 + 2 + lz)).
+    { destruct Lz as [[-> _]|[[-> _]|[-> _]]]; lia. }
+    destruct (id_fields bs lz off (len d) Lz Ho Hn) as [F1 F2].
+    change (1 + 2) with 3. rewrite F1, F2.
+    change (0 mod 65536 =? 0) with true. cbn [negb].
+    change ((2194 =? 0) || (2194 =? ALL_ONES)) with false. cbv iota.
+    destruct (N.leb_spec (2194 + bs) (len f2)); [|lia].
+    rewrite stored_block.
+    destruct (encode_dblock_shape (h_blk h1)) as [c Hshape];
+      [unfold h1; cbn [set_addrs h_blk db_size]; lia|unfold h1; cbn [set_addrs h_blk db_size db_objs]; lia|].
+    fold B in Hshape. unfold h1 in Hshape. cbn [set_addrs h_blk db_size db_objs db_hdraddr db_boff] in Hshape.
+    rewrite R_size0, R_boff0 in Hshape.
+    set (objs := db_objs (h_blk h)) in *. set (data := objs ++ zeros (bs - 19 - len objs)) in *.
+    assert (Hld : len data = bs - 19) by (unfold data; rewrite len_app, len_zeros; lia).
+    rewrite Hshape.
+    change (take 4 ((SIG_FHDB ++ [0]) ++ ?x)) with SIG_FHDB.
+    change (bytes_eqb SIG_FHDB SIG_FHDB) with true. cbn [negb].
+    change (slice ((SIG_FHDB ++ [0]) ++ ?x) 4 1) with [0]. change (unle [0] =? 0) with true. cbn [negb].
+    rewrite (slice_mid' (SIG_FHDB ++ [0]) (le 8 2048)) by reflexivity.
+    change (unle (le 8 2048) =? 2048) with true. cbn [negb].
+    rewrite (app_assoc (SIG_FHDB ++ [0])).
+    rewrite (slice_mid' ((SIG_FHDB ++ [0]) ++ le 8 2048) (le 2 0)) by reflexivity.
+    change (unle (le 2 0)) with 0. change (N.land 0 2 =? 0) with true. cbv iota.
+    rewrite (app_assoc ((SIG_FHDB ++ [0]) ++ le 8 2048)).
+    change (13 + 2) with 15.
+    rewrite slice_app_r by (change (len _) with 15; lia).
+    change (len (((SIG_FHDB ++ [0]) ++ le 8 2048) ++ le 2 0)) with 15.
+    replace (15 - 15) with 0 by lia.
+    replace (bs - 15) with (len (data ++ le 4 c)) by (rewrite len_app, len_le; lia).
+    rewrite slice_full.
+    destruct (N.ltb_spec off 0); [lia|]. rewrite N.sub_0_r.
+    rewrite len_app, len_le.
+    destruct (N.ltb_spec (len data + N.of_nat 4) off); [lia|].
+    destruct (N.ltb_spec (len data + N.of_nat 4) (off + len d)); [lia|].
+    f_equal. rewrite slice_app_l by lia. unfold data. rewrite slice_app_l by lia. assumption.
+  Qed.
+
+  Lemma core_read_stored : core_read f2 2048 id = Ok d.
+  Proof.
+    pose proof (bs_ok_bounds bs Hbs) as [[Hb1 Hb2] Hcap].
+    destruct (R_entry _ _ _ _ _ _ Hbs HR Hl) as ((A & B0 & C & D) & Ho & Hn & Hp).
+    unfold eoff, elen in *. cbn [fst snd] in *.
+    pose proof stored_len as Hlen. pose proof stored_object as Hobj. pose proof HR as HR'. destruct HR'.
+    remember (id_off id) as off eqn:Eoff. rewrite A.
+    unfold core_read, read_some.
+    assert (Hgot : len (slice f2 2048 144) = 144) by (apply len_slice; lia).
+    rewrite Hgot. change (144 <? 20) with false. cbv iota.
+    change (zeros (144 - 144)) with (@nil byte). rewrite app_nil_r.
+    assert (Hpart : forall o m, o + m <= 142 -> slice (slice f2 2048 144) o m = slice (header_body h1) o m).
+    { intros. rewrite slice_slice by lia. apply stored_header_part. assumption. }
+    replace (take 4 (slice f2 2048 144)) with SIG_FRHP.
+    2:{ change (take 4 (slice f2 2048 144)) with (slice (slice f2 2048 144) 0 4). rewrite Hpart by lia. reflexivity. }
+    change (bytes_eqb SIG_FRHP SIG_FRHP) with true. cbn [negb].
+    rewrite !Hpart by lia.
+    change (slice (header_body h1) 10 4) with (le 4 MAX_OBJ).
+    change (slice (header_body h1) 120 8) with (le 8 (h_maxdb h1)).
+    change (slice (header_body h1) 128 2) with (le 2 MAX_HEAP_BITS).
+    change (slice (header_body h1) 132 8) with (le 8 (h_root h1)).
+    change (unle (le 4 MAX_OBJ)) with 65536. change (unle (le 2 MAX_HEAP_BITS)) with 16.
+    change (wrap8 (wrap16 (16 + 7) / 8)) with 2.
+    assert (Hmd : h_maxdb h1 = bs) by assumption. assert (Hrt : h_root h1 = 2194) by reflexivity.
+    rewrite Hmd, Hrt. change (unle (le 8 2194)) with 2194.
+    rewrite (unle_le_small 8 bs) by (change (256 ^ N.of_nat 8) with 18446744073709551616; lia).
+    pose proof (lensz_of_ok bs ltac:(lia)) as Lz. change MAX_OBJ with 65536 in Lz.
+    set (lz := lensz_of bs 65536) in *.
+    rewrite mkid_unfold.
+    change (take 7 ([0; off mod 256; (off / 256) mod 256; len d mod 256; (len d / 256) mod 256;
+                     (len d / 256 / 256) mod 256; 0; 0] ++ zeros 7))
+      with [0; off mod 256; (off / 256) mod 256; len d mod 256; (len d / 256) mod 256; (len d / 256 / 256) mod 256; 0].
+    cbn [nth]. change (N.shiftr (N.land 0 48) 4 =? 0) with true. cbn [negb].
+    change (N.min 2 6) with 2. change (1 + 2) with 3. change (5 + 8 + 2) with 15. change (15 + 16) with 31.
+    set (ob := unle (take 2 (drop 1 _))).
+    assert (Hoff : ob = off).
+    { unfold ob, take, drop. change (N.to_nat 2) with 2%nat. change (N.to_nat 1) with 1%nat. cbn [skipn firstn unle]. lia. }
+    rewrite Hoff. clear ob Hoff.
+    set (lb := unle (take lz (drop 3 _))).
+    assert (Hlenf : lb = len d).
+    { unfold lb, take, drop. change (N.to_nat 3) with 3%nat. cbn [skipn].
+      destruct Lz as [[-> Hb]|[[-> Hb]|[-> Hb]]].
+      - change (N.to_nat 1) with 1%nat. cbn [firstn unle]. lia.
+      - change (N.to_nat 2) with 2%nat. cbn [firstn unle]. lia.
+      - change (N.to_nat 3) with 3%nat. cbn [firstn unle]. lia. }
+    rewrite Hlenf. clear lb Hlenf.
+    assert (Hhb : 15 <= len (slice f2 2194 31)).
+    { unfold slice. rewrite len_take, len_drop. lia. }
+    destruct (N.ltb_spec (len (slice f2 2194 31)) 15); [lia|].
+    destruct (encode_dblock_shape (h_blk h1)) as [c Hshape];
+      [unfold h1; cbn [set_addrs h_blk db_size]; lia|unfold h1; cbn [set_addrs h_blk db_size db_objs]; lia|].
+    fold B in Hshape. unfold h1 in Hshape. cbn [set_addrs h_blk db_size db_objs db_hdraddr db_boff] in Hshape.
+    rewrite R_size0, R_boff0 in Hshape.
+    assert (HB4 : take 4 (slice f2 2194 31) = SIG_FHDB).
+    { change (take 4 (slice f2 2194 31)) with (slice (slice f2 2194 31) 0 4). rewrite slice_slice by lia.
+      rewrite N.add_0_r. rewrite <- (N.add_0_r 2194) at 1. rewrite <- (slice_slice f2 2194 bs) by lia.
+      rewrite stored_block, Hshape. reflexivity. }
+    rewrite HB4. change (bytes_eqb SIG_FHDB SIG_FHDB) with true. cbn [negb].
+    assert (HB13 : slice (slice f2 2194 31) 13 2 = le 2 0).
+    { rewrite slice_slice by lia. rewrite <- (slice_slice f2 2194 bs) by lia. rewrite stored_block, Hshape.
+      rewrite (app_assoc (SIG_FHDB ++ [0])). apply slice_mid'; reflexivity. }
+    rewrite HB13. change (unle (le 2 0)) with 0.
+    destruct (N.ltb_spec off 0); [lia|]. rewrite N.sub_0_r.
+    rewrite Hobj, N.ltb_irrefl. reflexivity.
+  Qed.
+End Stored.
+
+Lemma refines_obs bs hist :
+  bs_ok bs = true -> one_block bs hist = true -> targets_live bs hist = true ->
+  exists sp eouts h fs,
+    spec_run bs spec0 hist = Some (sp, eouts)
+    /\ run cap_new bs (new_heap bs, fs0) hist = (h, fs, eouts)
+    /\ observables bs h sp.
+Proof.
+  intros Hbs H1 H2. destruct (refines bs hist Hbs H1 H2) as (sp & eouts & h & fs & Hs & Hr & _ & Hobs).
+  exists sp, eouts, h, fs. auto.
+Qed.
+
+Lemma readers bs hist :
+  bs_ok bs = true -> one_block bs hist = true -> targets_live bs hist = true ->
+  exists sp eouts h fs,
+    spec_run bs spec0 hist = Some (sp, eouts)
+    /\ run cap_new bs (new_heap bs, fs0) hist = (h, fs, eouts)
+    /\ exists h1 fs1 ha,
+         store h fs = (h1, fs1, ha)
+         /\ forall id d, lookup id (sp_live sp) = Some d ->
+              ro_read (f_bytes fs1) ha id = Ok d /\ core_read (f_bytes fs1) ha id = Ok d.
+Proof.
+  intros Hbs H1 H2. destruct (refines bs hist Hbs H1 H2) as (sp & eouts & h & fs & Hs & Hr & HR & _).
+  exists sp, eouts, h, fs. split; [assumption|split; [assumption|]].
+  destruct (store_files bs h fs sp HR) as [nx Hst].
+  eexists _, _, _. split; [exact Hst|]. cbn [f_bytes]. intros id d Hl. split.
+  - eapply ro_read_stored; eassumption.
+  - eapply core_read_stored; eassumption.
+Qed.
